@@ -45,6 +45,21 @@ def _unwrap_descriptor(o):
     return o, 'plain'
 
 
+def _in_package(o) -> bool:
+    m = getattr(o, '__module__', None) or ''
+    return m == 'biogeme' or m.startswith('biogeme.')
+
+
+def _placeholder(owner: str, name: str):
+    def redefined(self, *a, **k):
+        return None
+
+    redefined.__name__ = name
+    redefined.__qualname__ = f'{owner}.{name}'
+    redefined.__module__ = 'c20user'
+    return redefined
+
+
 def cells(f) -> dict:
     if not getattr(f, '__closure__', None):
         return {}
@@ -153,13 +168,31 @@ class Model:
                 return
             classes[sid] = c
             for v in list(vars(c).values()):
-                if inspect.isclass(v) and getattr(v, '__module__', '').startswith('biogeme'):
+                if inspect.isclass(v) and _in_package(v):
                     add_class(v)
 
         for mod in self.modules:
             for o in list(vars(mod).values()):
-                if inspect.isclass(o) and getattr(o, '__module__', '').startswith('biogeme'):
+                if inspect.isclass(o) and _in_package(o):
                     add_class(o)
+        self.package_only = set(classes)
+        # the receivers "subclasses that redefine the replacement": for every class that declares aliases, a
+        # user-style subclass (made here, not part of the package) that redefines the advertised new names
+        self.user_classes: dict[str, type] = {}
+        for sid in sorted(classes):
+            c = classes[sid]
+            own = [_unwrap_descriptor(raw) for raw in vars(c).values()]
+            news = sorted({f.__newname__ for f, d in own if is_alias(f) and d == 'plain'
+                           and inspect.isfunction(_unwrap_descriptor(inspect.getattr_static(c, f.__newname__, None))[0])})
+            if not news:
+                continue
+            qn = 'User_' + sid.replace('.', '_')
+            body = {n: _placeholder(qn, n) for n in news}
+            body['__module__'] = 'c20user'
+            body['__qualname__'] = qn
+            u = type('User_' + c.__name__, (c,), body)
+            self.user_classes[self.space_id(u)] = u
+        classes.update(self.user_classes)
         # closure under direct bases (external classes included: they take part in the linearisation)
         todo = list(classes.values())
         while todo:
@@ -169,7 +202,7 @@ class Model:
                 if sid not in classes:
                     classes[sid] = b
                     todo.append(b)
-        self.package_classes = {s for s, c in classes.items() if c.__module__.startswith('biogeme')}
+        self.package_classes = {s for s, c in classes.items() if _in_package(c)}
         # first pass: names of interest = every function-valued name of a package class
         interest = set()
         for sid in self.package_classes:
@@ -191,9 +224,13 @@ class Model:
                     tab[n] = self._register(f, n)
                     self.descr[(sid, n)] = d
             self.table[sid] = tab
-        # modules holding at least one alias: every function or class bound in the module
+        # modules holding at least one alias, and modules declaring a class that declares one:
+        # every function or class bound in the module
+        homes = {classes[sid].__module__ for sid in self.package_classes
+                 if any(self.fn[f]['kind'] == 'alias' for f in self.table[sid].values())}
+        self.home: dict[str, str] = {}
         for mod in self.modules:
-            if not any(is_alias(o) for o in vars(mod).values()):
+            if not any(is_alias(o) for o in vars(mod).values()) and mod.__name__ not in homes:
                 continue
             sid = self.space_id(mod)
             self.spaces[sid] = mod
@@ -205,6 +242,10 @@ class Model:
                     tab[n] = self._register(o, n)
                     self.descr[(sid, n)] = 'plain'
             self.table[sid] = tab
+        for sid in self.package_classes:
+            msid = 'module ' + classes[sid].__module__
+            if msid in self.spaces:
+                self.home[sid] = msid
         # keyword renaming maps (each wrapper once, wherever it is bound)
         seen = set()
         for sid, tab in self.table.items():
@@ -258,6 +299,8 @@ class Model:
             modules=sorted(s for s in self.spaces if self.is_module[s]),
             bases={s: list(b) for s, b in self.bases.items() if b},
             table={s: dict(t) for s, t in self.table.items() if t},
+            static=sorted([s, n] for (s, n), k in self.descr.items() if k == 'staticmethod'),
+            home=dict(self.home),
             fn={fid: dict(kind=r['kind'], own=r['own'], newname=r['newname'], captured=r['captured'], dispatch=r['dispatch'])
                 for fid, r in self.fn.items()},
             renames=[list(p) for p in sorted(DOCUMENTED_RENAMES)],
@@ -306,6 +349,8 @@ CONSTANTS
  Modules <- G_Modules
  Bases <- G_Bases
  Table <- G_Table
+ Static <- G_Static
+ Home <- G_Home
  Fn <- G_Fn
  Spelling <- G_Spelling
  Renames <- G_Renames
@@ -341,40 +386,48 @@ def blank_instance(cls):
             cls.__abstractmethods__ = saved
 
 
-def spy_pair(model: Model, rec: dict) -> dict:
-    """One (space, alias) pair emitted by TLC: rec has space, alias, newname, alias_definer,
-    expected_definer (where the spec's resolution finds the new name for this receiver) and
-    expected_fid.  Returns dict(ok=..., problems=[...])."""
+def _lookup(model: Model, space_id: str, name: str):
+    """Python's own resolution of `name` for an instance of the class (or in the module)."""
+    space = model.spaces[space_id]
+    if model.is_module[space_id]:
+        return vars(space).get(name), 'plain'
+    return _unwrap_descriptor(inspect.getattr_static(space, name, None))
+
+
+SHAPES = 4
+
+
+def _shape(k: int):
+    a = [Sentinel(f'a{i}') for i in range(5)]
+    kw = {'key': Sentinel('k1'), 'other': None}
+    return [(tuple(a[:2]), {'key': kw['key']}), ((), {}), ((), kw), (tuple(a), {})][k % SHAPES]
+
+
+def spy_pair(model: Model, rec: dict, shape: int = 0) -> dict:
+    """One (receiver space, alias) pair emitted by TLC.  rec carries the spec's expectations:
+    alias_definer, passes_receiver, new_space (where "use <new> instead" is followed),
+    expected_definer (the space whose dictionary supplies the new name there), expected_fid.
+    The function the spec expects to run is replaced by a recording stub IN THE DICTIONARY OF THE
+    EXPECTED DEFINER, the function captured by the wrapper by another stub IN THE CLOSURE; the old
+    and the new name are then called with the same sentinel arguments.  No biogeme code other than
+    the wrapper runs.  Returns dict(ok, problems, calls)."""
     space = model.spaces[rec['space']]
     modulesp = model.is_module[rec['space']]
     problems = []
     alias, newname = rec['alias'], rec['newname']
+    wrapper, descr = _lookup(model, rec['space'], alias)
+    if not is_alias(wrapper):
+        return dict(ok=False, problems=[dict(what='not a deprecation wrapper', got=repr(wrapper))], calls=0)
     # 1. the spec's resolution against Python's own attribute lookup
-    if modulesp:
-        wrapper = vars(space).get(alias)
-        real_new = vars(space).get(newname)
-        exp_owner = space
-    else:
-        wrapper = inspect.getattr_static(space, alias, None)
-        wrapper, _ = _unwrap_descriptor(wrapper)
-        real_new = inspect.getattr_static(space, newname, None)
-        real_new, _ = _unwrap_descriptor(real_new)
-        exp_owner = model.spaces.get(rec['expected_definer'])
+    if not modulesp:
         adef = model.spaces.get(rec['alias_definer'])
         if adef is None or _unwrap_descriptor(vars(adef).get(alias))[0] is not wrapper:
             problems.append(dict(what='alias definer', spec=rec['alias_definer'], python=getattr(wrapper, '__qualname__', None)))
-    if exp_owner is None or newname not in vars(exp_owner):
-        problems.append(dict(what='expected definer does not define the new name', spec=rec['expected_definer']))
-        return dict(ok=False, problems=problems, calls=0)
-    exp_obj = _unwrap_descriptor(vars(exp_owner)[newname])[0]
-    if exp_obj is not real_new:
-        problems.append(dict(what='resolution of the new name', spec=rec['expected_definer'], python=getattr(real_new, '__qualname__', None)))
-    if model.fid_of.get(id(exp_obj)) != rec['expected_fid']:
-        problems.append(dict(what='function identity', spec=rec['expected_fid'], python=model.fid_of.get(id(exp_obj))))
-    if not is_alias(wrapper):
-        problems.append(dict(what='not a deprecation wrapper', got=repr(wrapper)))
-        return dict(ok=False, problems=problems, calls=0)
-    # 2. spies: the class attribute the spec expects to run, and the function captured in the closure
+    passes = (not modulesp) and descr != 'staticmethod'
+    if passes != rec['passes_receiver']:
+        problems.append(dict(what='calling convention of the binding', spec=rec['passes_receiver'], python=passes))
+    cell = captured_cell(wrapper)
+    captured = cell.cell_contents
     log = []
     ret_new, ret_cap = Sentinel('ret-new'), Sentinel('ret-captured')
 
@@ -387,48 +440,69 @@ def spy_pair(model: Model, rec: dict) -> dict:
         return ret_cap
 
     s_new.__name__ = s_cap.__name__ = newname
-    cell = captured_cell(wrapper)
-    captured = cell.cell_contents
-    raw_saved = vars(exp_owner)[newname]
-    a1, a2, k1 = Sentinel('a1'), Sentinel('a2'), Sentinel('k1')
-    if modulesp:
-        recv_args = ()
-        call_old = lambda: getattr(space, alias)(a1, a2, key=k1)  # noqa: E731
-        call_new = lambda: getattr(space, newname)(a1, a2, key=k1)  # noqa: E731
-        before = None
-        inst = None
-    else:
-        inst = blank_instance(space)
-        recv_args = (inst,)
-        call_old = lambda: getattr(inst, alias)(a1, a2, key=k1)  # noqa: E731
-        call_new = lambda: getattr(inst, newname)(a1, a2, key=k1)  # noqa: E731
-        before = dict(getattr(inst, '__dict__', {}))
-    setattr(exp_owner, newname, s_new)
-    cell.cell_contents = s_cap
-    try:
+    pos, kws = _shape(shape)
+    inst = None if modulesp else blank_instance(space)
+    before = None if inst is None else dict(getattr(inst, '__dict__', {}))
+    target = space if modulesp else inst
+
+    def call(obj, name):
         with warnings.catch_warnings(record=True) as wl:
             warnings.simplefilter('always')
             try:
-                got_old = call_old()
+                got = getattr(obj, name)(*pos, **kws)
             except Exception as e:  # noqa
-                got_old = e
-                problems.append(dict(what='old name raised', error=repr(e)[:200]))
-        old_log, log[:] = list(log), []
-        with warnings.catch_warnings(record=True) as wl_new:
-            warnings.simplefilter('always')
-            got_new = call_new()
-        new_log, log[:] = list(log), []
+                got = e
+        out, log[:] = list(log), []
+        return got, out, list(wl)
+
+    if rec['new_space'] == '!missing':
+        # the spec finds nothing the receiver could use instead: show what the old name does
+        cell.cell_contents = s_cap
+        try:
+            got_old, old_log, wl = call(target, alias)
+        finally:
+            cell.cell_contents = captured
+        problems.append(
+            dict(
+                what='the advertised replacement cannot be reached from the receiver',
+                python_has_it=_lookup(model, rec['space'], newname)[0] is not None,
+                old_name_forwards=[(w, len(a)) for w, a, _ in old_log],
+                receiver_passed=bool(old_log and old_log[0][1] and old_log[0][1][0] is inst),
+                captured=model.fid_of.get(id(captured), getattr(captured, '__qualname__', '?')),
+            )
+        )
+        return dict(ok=False, problems=problems, calls=1)
+    new_space = model.spaces[rec['new_space']]
+    real_new, new_descr = _lookup(model, rec['new_space'], newname)
+    exp_owner = model.spaces.get(rec['expected_definer'])
+    if exp_owner is None or newname not in vars(exp_owner):
+        problems.append(dict(what='expected definer does not define the new name', spec=rec['expected_definer']))
+        return dict(ok=False, problems=problems, calls=0)
+    raw_saved = vars(exp_owner)[newname]
+    exp_obj = _unwrap_descriptor(raw_saved)[0]
+    if exp_obj is not real_new:
+        problems.append(dict(what='resolution of the new name', spec=rec['expected_definer'], python=getattr(real_new, '__qualname__', None)))
+    if model.fid_of.get(id(exp_obj)) != rec['expected_fid']:
+        problems.append(dict(what='function identity', spec=rec['expected_fid'], python=model.fid_of.get(id(exp_obj))))
+    new_target = target if new_space is space else new_space
+    setattr(exp_owner, newname, staticmethod(s_new) if isinstance(raw_saved, staticmethod) else s_new)
+    cell.cell_contents = s_cap
+    try:
+        got_old, old_log, wl = call(target, alias)
+        got_new, new_log, wl_new = call(new_target, newname)
     finally:
         cell.cell_contents = captured
-        if modulesp:
-            setattr(exp_owner, newname, raw_saved)
-        else:
-            setattr(exp_owner, newname, raw_saved)
-    want = (recv_args + (a1, a2), {'key': k1})
-    # the new name itself reaches the spy exactly once, silently (sanity of the set-up)
-    if [x[0] for x in new_log] != ['new'] or got_new is not ret_new or wl_new:
-        raise MachineryError(f'spy on {rec["expected_definer"]}.{newname} not reached through the new name: {new_log}')
-    ident = lambda t: (tuple(id(x) for x in t[1]), {k: id(v) for k, v in t[2].items()})  # noqa: E731
+        setattr(exp_owner, newname, raw_saved)
+    if vars(exp_owner)[newname] is not raw_saved or cell.cell_contents is not captured:
+        raise MachineryError('spies not removed')
+    want = (((inst,) if rec['passes_receiver'] else ()) + pos, kws)
+    ident = lambda a, k: (tuple(id(x) for x in a), {n: id(v) for n, v in k.items()})  # noqa: E731
+    # the new name itself reaches the stub exactly once, silently, with these arguments (sanity of the set-up)
+    if [x[0] for x in new_log] != ['new'] or got_new is not ret_new or wl_new or ident(*new_log[0][1:]) != ident(*want):
+        problems.append(dict(what='the new name does not run the function the spec expects', got=repr(new_log)[:300], result=repr(got_new)[:200]))
+        return dict(ok=False, problems=problems, calls=2)
+    if isinstance(got_old, Exception):
+        problems.append(dict(what='old name raised', error=repr(got_old)[:200]))
     if len(old_log) != 1:
         problems.append(dict(what='number of forwarded calls', got=[x[0] for x in old_log]))
     else:
@@ -441,17 +515,16 @@ def spy_pair(model: Model, rec: dict) -> dict:
                     new_runs=model.fid_of.get(id(real_new), getattr(real_new, '__qualname__', repr(real_new))),
                 )
             )
-        if ident((which, a, k)) != ident(('x',) + want) or ident((which, a, k)) != ident(new_log[0]):
+        if ident(a, k) != ident(*want):
             problems.append(dict(what='forwarded arguments differ', got=repr((a, k)), want=repr(want)))
         if got_old is not (ret_new if which == 'new' else ret_cap):
-            problems.append(dict(what='result is not the replacement\'s result', got=repr(got_old)))
+            problems.append(dict(what="result is not the replacement's result", got=repr(got_old)[:200]))
     dep = [w for w in wl if issubclass(w.category, DeprecationWarning)]
     if len(wl) != 1 or len(dep) != 1:
         problems.append(dict(what='warnings', got=[(w.category.__name__, str(w.message)) for w in wl]))
     else:
         msg = str(dep[0].message)
-        toks = msg.replace(';', ' ').replace(',', ' ').split()
-        toks = [t.rstrip('.') for t in toks]
+        toks = [t.rstrip('.') for t in msg.replace(';', ' ').replace(',', ' ').split()]
         if alias not in toks or newname not in toks:
             problems.append(dict(what='warning does not name old and new', got=msg))
     if inst is not None and dict(getattr(inst, '__dict__', {})) != before:
